@@ -3,6 +3,7 @@ from enum import Enum
 from pathlib import Path
 
 from packaging.requirements import InvalidRequirement
+from packaging.utils import canonicalize_name
 
 from codemodder.dependency import Requirement
 
@@ -36,7 +37,10 @@ class PackageStore:
         self.py_versions = py_versions
 
     def has_requirement(self, requirement: Requirement) -> bool:
-        return requirement.name in {dep.name for dep in self.dependencies}
+        # `Flask_WTF`, `flask.wtf` and `flask-wtf` name the same package (PEP 503)
+        return canonicalize_name(requirement.name) in {
+            canonicalize_name(dep.name) for dep in self.dependencies
+        }
 
 
 def parse_requirement(requirement: str | Requirement) -> Requirement:
